@@ -28,6 +28,11 @@ let dispatch fn args = match fn, args with
      | Err -> "err"
      | Ok o -> (match osdFullDecode o (z_of_hex avail) with
                 | DOk k -> "ok:" ^ hex_of_z k | DErrLimit -> "limit" | DErrEOF k -> "eof:" ^ hex_of_z k))
+  | "rowGuard", [mdb; pred; colors; bpc; columns; maxlen] ->
+    let opt x = if x = "-" then None else Some (z_of_hex x) in
+    (match rowGuard (z_of_hex mdb) (opt pred) (opt colors) (opt bpc) (opt columns) (z_of_hex maxlen) with
+     | RPassThru -> "passthru" | RErr -> "err" | RErrLimit -> "limit"
+     | RAlloc (rs, rl) -> Printf.sprintf "alloc:%s:%s" (hex_of_z rs) (hex_of_z rl))
   | "imageOK", [w; h; mip; mib] ->
     (match imageOK (z_of_hex w) (z_of_hex h) (lim z0 z0 z0 z0 (z_of_hex mip) (z_of_hex mib)) with
      | Ok (px, rb) -> Printf.sprintf "ok:%s:%s" (hex_of_z px) (hex_of_z rb)
